@@ -128,6 +128,9 @@ func specOpts6OK(a string, p int, kind int) bool {
 	return specOpts6OK(a, p+4+specU16At(a, p+2), kind)
 }
 
+// SpecAcceptV6: the acceptance predicate of DHCPv6 messages, for contracts of other packages (server6)
+func SpecAcceptV6(a string) bool { return specMsg6OK(a) }
+
 // specMsg6OK: a DHCPv6 message: 1-byte type; relay messages (12, 13) have a 34-byte header, all others a 4-byte one; then options
 //@ contract specMsg6OK
 //@   decreases len(a), 2
@@ -486,17 +489,20 @@ func specOpt6OK(code int, v string, kind int) bool {
 //@   ensures[accept] (err == nil) == (len(data) >= 4 && a0[0] != 12 && a0[0] != 13 && specOpts6OK(a0[4:], 0, 0))
 //@   ensures[result] (err == nil) == (result0 != nil)
 //@   ensures[header] err == nil ==> int(result0.MessageType) == int(a0[0]) && string(result0.TransactionID[:]) == a0[1:4]
+//@   ensures[fresh] err == nil ==> fresh(result0)
 
 //@ contract RelayMessageFromBytes
 //@   let a0 = string(data)
 //@   ensures[accept] (err == nil) == (len(data) >= 34 && (a0[0] == 12 || a0[0] == 13) && specOpts6OK(a0[34:], 0, 0))
 //@   ensures[result] (err == nil) == (result0 != nil)
 //@   ensures[header] err == nil ==> int(result0.MessageType) == int(a0[0]) && int(result0.HopCount) == int(a0[1]) && string(result0.LinkAddr) == a0[2:18] && string(result0.PeerAddr) == a0[18:34] && len(result0.LinkAddr) == 16 && len(result0.PeerAddr) == 16
+//@   ensures[fresh] err == nil ==> fresh(result0)
 
 //@ contract FromBytes
 //@   let a0 = string(data)
 //@   ensures[accept] (err == nil) == specMsg6OK(a0)
 //@   ensures[result] err == nil ==> result0 != nil
+//@   ensures[fresh] err == nil ==> fresh(result0)
 //@   ensures[dispatch] err == nil ==> (typeIs(result0, *RelayMessage) == (a0[0] == 12 || a0[0] == 13)) && (typeIs(result0, *Message) == !(a0[0] == 12 || a0[0] == 13))
 
 // list-valued options: (length, value)* or fixed-size items; the sticky lexer error makes a short item reject the option
